@@ -44,7 +44,7 @@ MECHANISMS_REQUIRED = [
     "jaxley.utils.cell_utils:compute_axial_conductances", "jaxley.modules.base:Module.step",
 ]
 REQUIRED = {"quick": {"step_api": 150},
-            "thorough": {"step_api": 750}}
+            "thorough": {"step_api": 3948}}
 WALL_BUDGET = {"quick": 1500, "thorough": 4 * 3600}
 
 
